@@ -466,7 +466,7 @@ func ruleTrailerAgreement(p *Prog, r *Report, rule string) {
 
 // ruleRestartPoints: C13.7.
 func ruleRestartPoints(p *Prog, r *Report, rule string) {
-	r.Begin(rule, "E-GUARD", "prefix compression: blockWriter.append records a restart point exactly when nEntries % restartInterval == 0 and shares a prefix with the previous key only otherwise; finish writes every restart offset followed by their count; the reader locates the restart array from the last 4 bytes", 4)
+	r.Begin(rule, "E-GUARD", "prefix compression: blockWriter.append records a restart point only when nEntries % restartInterval == 0 (the first entry of a block always qualifies) and shares a prefix with the previous key only otherwise; finish writes every restart offset followed by their count; the reader locates the restart array from the last 4 bytes", 4)
 	defer r.End()
 	tBW := "leveldb/table.blockWriter"
 	if fn := resolveFn(p, r, "leveldb/table", "(*blockWriter).append"); fn != nil {
